@@ -483,6 +483,13 @@ def run(ck, facts, tier):
     from . import prims
 
     prims.rule_unit_merge(ck, facts, "C01.unit-merge")
+    # the unchecked state accesses of the VM are safe only if the published layout is complete and the cursor
+    # accounting is path-independent: the layout rules of C05 are part of this property's argument
+    from . import c05, c12
+
+    c05.rule_no_dropped_states(ck, facts)
+    c05.rule_branch_accounting(ck, facts)
+    c12.rule_predicate_recursion(ck, facts)
     guards.run(ck, facts, "C03.guarded-index", ["mimium_lang", "state_tree", "mimium_scheduler", "mimium_audiodriver"])
     c03_unsafe.run(ck, facts, cg, tier)
     ck.not_decided("absence of index/overflow/division panics (compiler-inserted asserts are counted in the evidence only)")
